@@ -1245,9 +1245,18 @@ class Interp:
         return Arr(min(max(x, lo) if lo is not None else x, hi)
                    if hi is not None else (max(x, lo) if lo is not None
                                            else x) for x in vec(args[0]))
-    if short in ('asarray', 'array', 'copy') and len(args) >= 1 and \
+    if short in ('asarray', 'array', 'copy', 'asanyarray',
+                 'ascontiguousarray') and len(args) >= 1 and \
             vec(args[0]) is not None:
-      return Arr(vec(args[0]))
+      dt = kwargs.get('dtype', args[1] if len(args) > 1 and
+                      short != 'copy' else None)
+      out = Arr(vec(args[0]), mask=getattr(args[0], 'is_mask', False))
+      if dt is not None:
+        # a conversion: the same effect as .astype(dt) (C truncation for int)
+        return self.method(out, 'astype', [dt], {}, node)
+      if short in ('asarray', 'asanyarray') and isinstance(args[0], Arr):
+        return args[0]             # no copy is made of an array
+      return out
     if short in ('arange',) and all(_is_int(a) for a in args) and args:
       return Arr(range(*args))
     if short in ('multiply', 'add', 'subtract') and len(args) == 2:
